@@ -601,7 +601,7 @@ macro_rules! real_pair {
                 0 => go!(Add, 0), 1 => go!(Sub, 1), 4 => go!(Mod, 4),
                 9 => go!(Eq, 9), 10 => go!(Ne, 10), 11 => go!(Lt, 11), 12 => go!(Le, 12), 13 => go!(Gt, 13), _ => go!(Ge, 14),
             }
-            kani::cover!(k == 0 && af.is_finite() && bf.is_finite() && af + bf > 1.0e300);
+            kani::cover!(k == 0 && af.is_finite() && bf.is_finite() && af + bf > 3.5e38);
             kani::cover!(k == 11 && af < bf);
         }
     };
